@@ -147,20 +147,21 @@ def closeWrites (g : CloseGuard) (s : CSt) : Bool :=
   | .dirty => s.dirty
   | .dirtyAndHeightDiffers => s.dirty && hdiff s > 0
 
-def cstep (g : CloseGuard) (s : CSt) : COp → CSt
-  | .commit b => { s with tip := b, height := s.height + 1, dirty := true }
-  | .undo p => { s with tip := p, height := s.height - 1, dirty := true }
+/-- `cd` / `ud`: CommitBlockTxs / UndoBlockTxs mark the set dirty (regenerated facts commitSetsDirty / undoSetsDirty) -/
+def cstep (g : CloseGuard) (cd ud : Bool) (s : CSt) : COp → CSt
+  | .commit b => { s with tip := b, height := s.height + 1, dirty := s.dirty || cd }
+  | .undo p => { s with tip := p, height := s.height - 1, dirty := s.dirty || ud }
   | .idle skip => if s.dirty && hdiff s > skip then saveNow s else s
   | .restart =>
     let s := if closeWrites g s then saveNow s else s
     { s with tip := s.dTip, height := s.dHeight, dirty := false }
 
-def crun (g : CloseGuard) (s : CSt) (ops : List COp) : CSt := ops.foldl (cstep g) s
+def crun (g : CloseGuard) (cd ud : Bool) (s : CSt) (ops : List COp) : CSt := ops.foldl (cstep g cd ud) s
 
 /-- the states right BEFORE and right AFTER every restart of a history (what the harness compares: block and height) -/
-def restartPairs (g : CloseGuard) : CSt → List COp → List ((Nat × Nat) × (Nat × Nat))
+def restartPairs (g : CloseGuard) (cd ud : Bool) : CSt → List COp → List ((Nat × Nat) × (Nat × Nat))
   | _, [] => []
-  | s, .restart :: ops => ((s.tip, s.height), ((cstep g s .restart).tip, (cstep g s .restart).height)) :: restartPairs g (cstep g s .restart) ops
-  | s, op :: ops => restartPairs g (cstep g s op) ops
+  | s, .restart :: ops => ((s.tip, s.height), ((cstep g cd ud s .restart).tip, (cstep g cd ud s .restart).height)) :: restartPairs g cd ud (cstep g cd ud s .restart) ops
+  | s, op :: ops => restartPairs g cd ud (cstep g cd ud s op) ops
 
 end GocoinV.Persist.Idx
